@@ -116,6 +116,21 @@ CLAIMS["C09"] = dict(
     technique="set-ness type inference + order-observability analysis of each iteration site; ambient-source taint with guard correlation; sibling-branch comparison of emitter sequences; must-set-flag path checks in the diff routine",
     ref="3/C09",
 )
+CLAIMS["C20"] = dict(
+    text="Decides the for-all-strings claim by abstract interpretation instead of enumerating short strings: each NameSanitizer name "
+    "function (class, module, method, tag class, tag attribute) is interpreted over a string-shape domain (may-be-empty, set of "
+    "character classes at position 0 and anywhere - ASCII upper/lower/digit/underscore/other plus four non-ASCII classes separating "
+    "identifier-start, identifier-continue, \\w-but-not-identifier and other - guaranteed suffix, keyword-guard state) with transfer "
+    "functions for exactly the regex and string operations the functions use (patterns parsed with re._parser). Obligations on the "
+    "abstract result: never empty, valid first character, only identifier characters, no Python keyword reachable given the guard that "
+    "was applied to the *returned* value. An unmodelled operation is an ANALYSIS-ERROR, never a pass. Enum member-name generators are "
+    "checked for their validated-return shape (raise unless fullmatch, keyword suffix dominates). De-duplication soundness is checked "
+    "structurally at the six namespace sites (fields, enum members, class names, module stems, operation methods, operation "
+    "parameters): membership test in the accumulating set, rename in a loop until unused, final name recorded on every path. The "
+    "domain over-approximates: it can only produce an extra report (triaged against the real function once), never miss one.",
+    technique="string-shape abstract interpretation with regex transfer functions + validated-return dominance + de-dup pattern check on the CFG",
+    ref="3/C20",
+)
 
 NOT_APPLICABLE = {}
 
